@@ -168,6 +168,10 @@ func (s *Sched) enabled(t *thread) bool {
 
 // Run executes the bodies under the scheduler following the choice prefix (then always choice 0).
 // prepare runs before the hook is active (sequential set-up), the bodies run as managed threads.
+// ExtraGoroutines is the number of long-lived goroutines the bodies start that never touch a hooked lock (they
+// run freely and are not waited for by the settle barrier).
+var ExtraGoroutines = 0
+
 func Run(bodies []func(), names []string, prefix []int, limit time.Duration) *Result {
 	s := &Sched{byGid: map[uint64]*thread{}, mutexes: map[unsafe.Pointer]*mstate{}, parkedCh: make(chan struct{}, 64), adopt: true}
 	res := &Result{}
@@ -260,7 +264,7 @@ func Run(bodies []func(), names []string, prefix []int, limit time.Duration) *Re
 			}
 			s.mu.Unlock()
 			n := runtime.NumGoroutine()
-			if allParked && n <= base+alive {
+			if allParked && n <= base+alive+ExtraGoroutines {
 				break
 			}
 			spins++
